@@ -126,3 +126,33 @@ def add_pt_to(chk, r, n, **kw):
     if st:
         k, dis, keys, samples = st
         chk.corr(POP_NAME, k, dis, keys, samples)
+
+
+# ----------------------------------------------------------------------------- PatternSearch, complete model
+
+PAT_NAME = ("whole optimizer PatternSearch (pattern list, regeneration in finish_initialization / evaluate, pop(0), window pick; the known "
+            "IndexError of an exhausted pattern is PREDICTED by the model): GFO.Model.Pattern driven through the driver model by the recorded "
+            "tape must emit the same positions, rows, trace, best result or the same exception, the tracker, the pattern list and consume the tape exactly")
+
+
+def pattern_stage(chk, r, n, constraint_p=0.4, nonfinite_p=0.3):
+    sps = [bkgen.scenario(r, "PatternSearch", constraint_p=constraint_p, nonfinite_p=nonfinite_p) for _ in range(n)]
+    dis, keys, samples = [], set(), []
+    k = 0
+    for i in range(0, len(sps), 60):
+        for s, o in loc.run_batch(sps[i:i + 60], loc.run_pattern_scenario):
+            k += 1
+            keys.add((s["opt_kwargs"].get("n_positions"), bool(s.get("constraint")), tuple(sorted(o["tape_kinds"])),
+                      "raised-as-predicted" if o["raised"] and o["diff"] is None else ("raised" if o["raised"] else "ok")))
+            if o["diff"] is not None:
+                dis.append(dict(case=s, diff=o["diff"]))
+            elif len(samples) < 2:
+                samples.append(dict(kwargs=s["opt_kwargs"], tape_entries=o["tape_len"], tape_kinds=o["tape_kinds"], raised=o["raised"]))
+    return k, dis, keys, samples
+
+
+def add_pattern_to(chk, r, n, **kw):
+    st = chk.stage("whole-optimizer pattern search correspondence", pattern_stage, chk, r, n, **kw)
+    if st:
+        k, dis, keys, samples = st
+        chk.corr(PAT_NAME, k, dis, keys, samples)
